@@ -579,6 +579,8 @@ INTROSPECT_EXCLUDE = {
 }
 
 _prop_cache = {}
+READ_METHODS = {"Section": ("inherited_properties", "find_related"), "DataFrame": ("row_count",),
+                "DataArray": ("len",), "File": ("is_open",)}
 
 
 def public_properties(cls):
@@ -643,6 +645,12 @@ def _walk_introspect(f):
             except Exception as e:  # noqa
                 rec[pname] = Raises(e)
         # stored data of data arrays / frames / views is part of the observable state
+        # public zero-argument read methods that are not properties
+        for mname in READ_METHODS.get(type(ent).__name__, ()):
+            try:
+                rec[mname + "()"] = _icanon(getattr(ent, mname)())
+            except Exception as e:  # noqa
+                rec[mname + "()"] = Raises(e)
         if type(ent).__name__ == "DataArray":
             rec["__data__"] = array_payload(ent)
         elif type(ent).__name__ == "DataFrame":
